@@ -424,7 +424,22 @@ def _pattern(st, reg):
     return out
 
 
+_inv_cache = {}
+
+
 def invariant(st):
+    """The probe grid is a pure function of the store's content (reads and membership do not modify it), so its verdict
+    is computed once per distinct content in each worker process and served from a table afterwards."""
+    key = _content_key(st)
+    probs = _inv_cache.get(key)
+    if probs is None:
+        probs = _inv_cache[key] = _probe(st)
+        if len(_inv_cache) > 200000:
+            _inv_cache.clear()
+    return list(probs)
+
+
+def _probe(st):
     m = _m()
     probs = []
     asz = st.asz
@@ -488,7 +503,7 @@ def invariant(st):
     return probs
 
 
-def canon(st):
+def _content_key(st):
     impl = []
     for base, arr in st.engine.symbols.symbols_mem.base_to_memarray.items():
         b = str(base)
@@ -496,7 +511,11 @@ def canon(st):
             impl.append((b, off, idx, str(e)))
     impl.sort()
     # limit - nev: states of seeds with different remaining depth budgets are not merged (each is expanded to its own bound)
-    key = (st.asz, st.primary, st.more, st.limit - st.nev, tuple(sorted(st.model.items())), tuple(impl))
+    return (st.asz, st.primary, tuple(sorted(st.model.items())), tuple(impl))
+
+
+def canon(st):
+    key = (st.more, st.limit - st.nev, _content_key(st))
     return hashlib.sha1(repr(key).encode()).hexdigest()       # short, deterministic handle (keys travel between processes)
 
 
